@@ -39,10 +39,10 @@ Theorem C04_quiescent_clean : forall v br s, reachable v br s -> quiescent s = t
 Proof. exact quiescent_clean. Qed.
 
 (* ... so a fresh client (naming a known bridge) is told there are no proxies. *)
-Theorem C04_fresh_client_refused : forall v br s n fp o ch s',
-  reachable v br s -> quiescent s = true -> lookup fp br <> None ->
-  step v s (L_Client n fp o ch) = Some s' ->
-  ch = None /\ done_clients s' = (next_cid s, n, fp, o, CNoProxies) :: done_clients s.
+Theorem C04_fresh_client_refused : forall v br s n ofp o ch s',
+  reachable v br s -> quiescent s = true -> lookup (fp_of ofp) (bridges s) <> None ->
+  step v s (L_Client n ofp o ch) = Some s' ->
+  ch = None /\ done_clients s' = (next_cid s, n, fp_of ofp, o, CNoProxies) :: done_clients s.
 Proof. exact fresh_client_refused. Qed.
 
 (* The pinned protocol violated the property: after the schedule "poll; its timer fires and the waiter
